@@ -4,5 +4,6 @@ CONSTANTS
   Catalogue <- MCCatalogue
   GuardEnabled = TRUE
   NoThread = 0
+  RecursiveScrape = FALSE
 INVARIANT Emit
 CHECK_DEADLOCK FALSE
